@@ -2,6 +2,7 @@
    Statements only; each closed by `exact` of a lemma from Proofs/, followed by Print Assumptions. *)
 From Coq Require Import Sorting.Permutation.
 From Verif Require Import Base C02 C02_proofs C02_check C02_check_proofs C02_sup C02_sup_proofs C02_onto_proofs.
+From Verif Require Import C02_canon_proofs.
 
 (* edge_node_connectivity lists exactly the unordered consecutive corner pairs (incl. closing pair) *)
 Theorem C02_edges_exact : forall m t q, std_table m t -> (In q (edges t) <-> In q (spec_pairs t)).
@@ -96,3 +97,15 @@ Theorem C02_n_edge_le_corners : forall m t, std_table m t ->
   (length (edges t) <= length (flat_map (fun r => cyc_pairs (corners r)) t))%nat.
 Proof. exact n_edge_le_corners. Qed.
 Print Assumptions C02_n_edge_le_corners.
+
+(* the edge numbering is canonical: strictly ascending in (lower node, upper node) ... *)
+Theorem C02_edges_strictly_ascending : forall t, Sorted.StronglySorted ltP (edges t).
+Proof. exact edges_strictly_ascending. Qed.
+Print Assumptions C02_edges_strictly_ascending.
+
+(* ... hence determined by the SET of boundary segments alone: the same segments described with faces in another order, rings
+   started at another corner or traversed the other way get the very same edge table *)
+Theorem C02_edges_determined_by_segments : forall m1 m2 t1 t2, std_table m1 t1 -> std_table m2 t2 ->
+  (forall q, In q (spec_pairs t1) <-> In q (spec_pairs t2)) -> edges t1 = edges t2.
+Proof. exact edges_determined_by_segments. Qed.
+Print Assumptions C02_edges_determined_by_segments.
